@@ -436,6 +436,10 @@ impl<'a> Iterator for Tokenizer<'a> {
             // Separates the header from arguments
             x if x.is_ascii_whitespace() => {
                 util::skip_ws(&mut self.chars);
+                // A data separator cannot follow the header separator directly
+                if let Some(b',') = self.chars.clone().next() {
+                    return Some(Err(ErrorCode::SyntaxError));
+                }
                 /* Header ends */
                 self.in_header = false;
                 Some(Ok(Token::ProgramHeaderSeparator))
